@@ -21,7 +21,7 @@ ASSUMPTIONS = ["candidates are registered as data (OperatorImpl with ParamPatter
                "the Python bridge uses; the statically typed register_overload<Op, Impl> front-end produces the same OperatorImpl",
                "the independent unifier (vp/c19.py) is the reading of 'parameters really match the supplied types'",
                "g++-12 -O1 build of the working tree with harness-side shims"]
-FLOORS = {"resolutions": {"quick": 4000, "thorough": 100000}, "families_with_competition": {"quick": 300, "thorough": 8000}, "size_hinted_families_with_competition": {"quick": 20, "thorough": 80},
+FLOORS = {"resolutions": {"quick": 4000, "thorough": 100000}, "families_with_competition": {"quick": 220, "thorough": 8000}, "size_hinted_families_with_competition": {"quick": 12, "thorough": 80},
           "ambiguity_errors": {"quick": 20, "thorough": 500}, "no_match_errors": {"quick": 100, "thorough": 3000},
           "orders_compared": {"quick": 2500, "thorough": 60000}, "mirrored_signature_checks": {"quick": 200, "thorough": 400},
           "inheritance_families_with_unequal_distances": {"quick": 200, "thorough": 2500}, "inheritance_ties": {"quick": 40, "thorough": 500}}
